@@ -44,8 +44,7 @@ void h_background_clean_up(void) {
 
 /* Body of the background thread (contract: contracts/logging.h pass 2).  g_wseq / g_wline stay unconstrained: the
  * per-call preconditions of the write / destroy contracts are checked for an arbitrary line.
- * VERIF_BGT_LINES (bounded unit only): at most that many lines are ever accepted and from the VERIF_BGT_SYNCS-th
- * synchronisation point on `finished` is set and nothing arrives any more. */
+ * (Bounded companion without contracts: units/C14/log_channel_thread.c.) */
 void h_background_thread(void) {
     void *thread_data;
     FMT_GHOST_RESET();
@@ -54,9 +53,6 @@ void h_background_thread(void) {
     g_mutex = nondet_ptr(); g_signal = nondet_ptr(); g_pending = nondet_ptr(); g_finished_flag = nondet_ptr();
     g_bgt_writer = nondet_ptr();
     g_wseq = nondet_size_t(); g_wline = nondet_ptr();
-#ifdef VERIF_BGT_LINES
-    g_bgt_bounded = true; g_bgt_max_lines = VERIF_BGT_LINES; g_bgt_max_syncs = VERIF_BGT_SYNCS;
-#endif
     aws_background_logger_thread(thread_data);
     CANARY("returned");
     if (g_accepted == 0) CANARY("returned without ever seeing a line");
